@@ -14,10 +14,12 @@ def gen_chain(seed, size):
     there are three) whose only event is a straggler for the head of the chain: a rollback cascade of one anti-message
     per hop walks down the whole chain"""
     r = random.Random(seed * 31 + 7)
-    H = r.choice([4, 6, 8]) if size == "small" else r.choice([8, 10])
+    H = r.choice([6, 8, 8]) if size == "small" else r.choice([8, 10])
     n = 3 * H
     payloads = [{"size": 0, "padd": 0, "bytes": []}, {"size": 8, "padd": 1, "bytes": [r.randrange(256) for _ in range(8)]}]
-    hop = {"drule": H, "drule2": n - H + 1, "delay": 1, "ty": 2, "pid": r.choice([0, 1])}
+    # payload 1 adds 1 to the state: every LP is in state 1 after its first hop and stops forwarding, so that once the cascade of
+    # anti-messages starts nothing else is pending at low timestamps (the situation in which an accumulator that misses extractions shows)
+    hop = {"drule": H, "drule2": n - H + 1, "delay": 1, "ty": 2, "pid": r.choice([1, 1, 1, 0])}
     trans = []
     for s_ in range(2):
         trans.append([
